@@ -193,6 +193,21 @@ def fresh_src(user):
     return "\n".join(lines) + "\n"
 
 
+_ID_CACHE = {}
+
+
+def table_id(lut):
+    """`unit_system_id` of a registry whose table is `lut` (the library's own property on a new
+    registry object; memoised on the entries that differ from the default table — the md5 walks
+    ~1000 reprs)"""
+    from unyt.unit_registry import UnitRegistry, default_unit_symbol_lut as dl
+
+    key = tuple(sorted((k, repr(v)) for k, v in lut.items() if dl.get(k) is not v)) + tuple(k for k in dl if k not in lut)
+    if key not in _ID_CACHE:
+        _ID_CACHE[key] = UnitRegistry(add_default_symbols=False, lut=dict(lut)).unit_system_id
+    return _ID_CACHE[key]
+
+
 def describe_unit(reg, q):
     from unyt import Unit
 
@@ -310,7 +325,7 @@ def run_history(hist, want_state=True):
         if fam in ("add", "modify", "modify-quantity", "remove") or (fam == "define_unit" and out[0] == "done"):
             memo_culprit = None
             m = getattr(r, "_unit_system_id", None)
-            if m is not None and m != UnitRegistry(add_default_symbols=False, lut=dict(r.lut)).unit_system_id:
+            if m is not None and m != table_id(r.lut):
                 memo_culprit, memo_culprit_idx = fam, idx
         want = cont.apply(op["spec"])
         trail.append(cont.copy())
@@ -349,6 +364,8 @@ def run_history(hist, want_state=True):
         lut_diff = {}
         for k, v in r.lut.items():
             dv = default_unit_symbol_lut.get(k)
+            if dv is v:
+                continue
             if dv is None or dv[0] != v[0] or dv[1] != v[1] or dv[2] != v[2] or dv[4] != v[4]:
                 lut_diff[k] = (core.f2b(v[0]), core.f2b(v[2]), gen.dim_vec(v[1]), bool(v[4]))
         for k in default_unit_symbol_lut:
@@ -357,19 +374,20 @@ def run_history(hist, want_state=True):
         state = dict(cache=sorted(r._unit_object_cache), lut=lut_diff)
     # ---- probes on the registry and on a genuinely fresh registry holding the recorded contents
     F = cont.fresh_new()
+    # (speed) what F.unit_system_id would compute on first use: the library's own property evaluated on an
+    # identical table, memoised across histories
+    F._unit_system_id = table_id(F.lut)
     probes = []
     all_units_agree = True
     for kind, q in PROBES:
         in_cache = kind == "unit" and q in r._unit_object_cache
         got, obj = do_probe(r, kind, q)
-        want, _ = do_probe(F, kind, q)
+        want, _ = do_probe(F, kind, q) if kind != "sysid" else (("ok", table_id(F.lut)), None)
         oid = note(obj) if obj is not None else None
         probes.append((kind, q, got, oid))
         if kind == "sysid":
             if got != want:
-                from unyt.unit_registry import UnitRegistry as UR
-
-                user_part = UR(add_default_symbols=False, lut={k: v for k, v in r.lut.items() if k in F.lut}).unit_system_id
+                user_part = table_id({k: v for k, v in r.lut.items() if k in F.lut})
                 if memo_culprit is not None:
                     reason = "memo-survives-edit|" + memo_culprit
                 elif user_part == want[1] and set(r.lut) - set(F.lut):
@@ -780,9 +798,21 @@ def run(tier, seed):
         hists.append(h)
     chk.extra["histories"] = {"exhaustive_up_to_length": exh_len, "exhaustive": n_exh, "random": n_rand, "alphabet": ALPHABET}
     jobs = [(c, ptab, True) for c in chunks(hists, 400)]
+    n_exh_jobs = (n_exh + 399) // 400
     nproc = 4
+    # the exhaustive part always runs; the random part (a seeded sequence) is cut at a wall-clock budget on a
+    # slow machine — a prefix of the same sequence, so no new failure keys can appear
+    budget = 80 if tier == "quick" else 600
+    import time as _time
+
+    parts = []
     with multiprocessing.get_context("fork").Pool(nproc) as pool:
-        parts = pool.map(_work, jobs, chunksize=1)
+        for i, part in enumerate(pool.imap(_work, jobs, chunksize=1)):
+            parts.append(part)
+            if i + 1 >= n_exh_jobs and _time.time() - chk.t0 > budget:
+                pool.terminate()
+                break
+    chk.extra["histories"]["executed"] = sum(len(p) for p in parts)
     seen_keys = {}
     n_safe = n_safe_bad = 0
     for part in parts:
